@@ -2,7 +2,10 @@
 # Build the framework from files on disk only (offline): all Lean property modules + the native driver.
 # Go harnesses are built by each check from /repo's current working tree (build overlay, tag `verif`).
 set -e
-cd "$(dirname "$0")/lean"
+cd "$(dirname "$0")"
+# T-gen: regenerate lean/Obao/Gen from /repo (the checks do this again on every run)
+python3 -c "import sys; sys.path.insert(0, '.'); from lib import core; core.regenerate()"
+cd lean
 mods=""
 for f in Obao/Props/*.lean; do
   m=$(basename "$f" .lean)
